@@ -575,6 +575,7 @@ var c06xHintKeys = []string{"SELECT", "FROM", "WHERE", "ORDER BY", "LIMIT", "INS
 var c06xBuilderKeys = []string{"GROUP BY", "ORDER BY", "FOR"}
 
 type c06xRun struct {
+	hs    []*gorm.DB
 	Obs   map[int]c06xObs
 	Sess  []c06xSessFact
 	Panic string
@@ -592,6 +593,7 @@ func c06xExec(w *c06xWorld, h c06xHist, mask []bool) (run c06xRun) {
 	hs := []*gorm.DB{db}
 	var txs []*gorm.DB
 	defer func() {
+		run.hs = hs
 		for _, t := range txs {
 			t.Rollback()
 		}
@@ -911,6 +913,15 @@ func c06xExec(w *c06xWorld, h c06xHist, mask []bool) (run c06xRun) {
 	return
 }
 
+// c06xHandles: the handles of a full run (nil after a panic)
+func c06xHandles(w *c06xWorld, h c06xHist) []*gorm.DB {
+	run := c06xExec(w, h, nil)
+	if run.Panic != "" || len(run.hs) != len(h.Ops)+1 {
+		return nil
+	}
+	return run.hs
+}
+
 // ---- oracle -----------------------------------------------------------------------------------------
 
 // c06xSameObs: the replay-alone oracle's comparison.  Latitudes: conjunct order (already canonical in Events/SQL).
@@ -1083,7 +1094,14 @@ func c06xShrink(w *c06xWorld, h c06xHist) c06xHist {
 	return cur
 }
 
+var c06xReports int
+
 func c06xReport(r *Result, w *c06xWorld, suite string, h c06xHist, bad []c06xMismatch) {
+	c06xReports++
+	if c06xReports > 3 {
+		r.H("x_unreported_mismatch (more than 3 in one run)", bad[0].What)
+		return
+	}
 	min := c06xShrink(w, h)
 	_, mb := c06xJudge(w, min)
 	if len(mb) == 0 {
